@@ -36,12 +36,28 @@ bool SPxSolverBase<R>::readBasisFile(
    const NameSet* rowNames,
    const NameSet* colNames)
 {
-   spxifstream file(filename);
+   // with zlib support the stream reports a file that cannot be opened or decompressed by throwing
+   try
+   {
+      spxifstream file(filename);
 
-   if(!file)
+      if(!file)
+         return false;
+
+      return this->readBasis(file, rowNames, colNames);
+   }
+
+#ifdef SOPLEX_WITH_ZLIB
+   catch(const strict_fstream::Exception&)
+   {
       return false;
+   }
 
-   return this->readBasis(file, rowNames, colNames);
+#endif
+   catch(const std::ios_base::failure&)
+   {
+      return false;
+   }
 }
 
 template <class R>
